@@ -138,7 +138,8 @@ def sum_scenario(which):
     names = ["inputs", "outputs", "parameters", "op_cost"]
     ed = {}
     vals = {}
-    for i, (ln, cn) in enumerate((("d0", "QDense"), ("a0", "QActivation"), ("bn", "QBatchNormalization"))):
+    for i, (ln, cn) in enumerate((("d0", "QDense"), ("a0", "QActivation"), ("bn", "QBatchNormalization"),
+                                  ("fl", "Flatten"), ("un", "Unlisted"))):
       e = {}
       for k in names:
         v = z3.Real("e_%s_%s" % (ln, k))
@@ -148,9 +149,11 @@ def sum_scenario(which):
         vals[(ln, k)] = v
       ed[ln] = {"class_name": cn, "energy": e}
     ed["total_cost"] = 123
+    # a class may be configured with an EMPTY selection (free layer); unlisted classes use "default"
     cfg = {"default": ["inputs", "parameters", "op_cost"], "QActivation": ["outputs"],
-           "QBatchNormalization": ["parameters"]}
-    sel = {"d0": cfg["default"], "a0": cfg["QActivation"], "bn": cfg["QBatchNormalization"]}
+           "QBatchNormalization": ["parameters"], "Flatten": []}
+    sel = {"d0": cfg["default"], "a0": cfg["QActivation"], "bn": cfg["QBatchNormalization"], "fl": [],
+           "un": cfg["default"]}
     tot = sum((vals[(ln, k)] for ln in sel for k in sel[ln]), z3.RealVal(0))
     if which == "sum":
       r = run_call(ip, ip.getattr(qt, "extract_energy_sum"), [cfg, ed])
